@@ -998,7 +998,13 @@ fn one_csi(ctx: &mut Ctx, sub: u64) {
     }
     let back = guarded(|| csi_read(&bytes));
     ctx.corr(format!("c17 csi-parse {}", hex(&bytes)), ans_read(guarded(|| csi_read(&bytes)), |ix| d_csi(ix)));
+    // a geometry outside what the formulas are defined for (min_shift 0, min_shift + 3·depth
+    // beyond the word size, depth beyond the documented maximum 10) is not a structurally valid
+    // index: the reader must answer it with an error (never a panic), and nothing is compared
+    let valid_geometry = ms > 0 && u32::from(ms) + 3 * u32::from(d) < 64 && d <= 10;
     match back {
+        Ok(Err(_)) if !valid_geometry => ctx.bump("file_csi_invalid_geometry_rejected"),
+        Ok(Ok(_)) if !valid_geometry => ctx.fail("csi-file-roundtrip", format!("index {desc}: the reader accepted the geometry ({ms},{d}) that no query is defined for"), case.clone()),
         Ok(Ok(b)) => csi_oracle(ctx, &mut rng, &idx, &b, aligned, end_is_start, &desc, &case),
         Ok(Err(e)) => ctx.fail("csi-file-roundtrip", format!("index {desc}: reader failed: {e}"), case.clone()),
         Err(p) => ctx.fail("csi-file-roundtrip", format!("index {desc}: reader panicked: {p}"), case.clone()),
